@@ -297,6 +297,14 @@ func (g *gen) allotPortions() []J {
 			out = append(out, ePortion(p[0], p[1]))
 		}
 	}
+	if g.cfg.unspecified && r.Intn(12) == 0 {
+		// portions above one next to `remaining` (remaining first or last): cannot add up to one
+		over := []J{ePortion(3, 2), ePortion(1, 2)}
+		if r.Intn(2) == 0 {
+			return append([]J{eRemaining()}, over...)
+		}
+		return append(over, eRemaining())
+	}
 	if g.cfg.portionVars {
 		// replace a clause by a portion variable holding the same value
 		for i := range out {
@@ -363,6 +371,10 @@ func (g *gen) declareVars(c *Case) {
 			if cfg.worldVars && r.Intn(4) == 0 {
 				val = J{"t": "acct", "v": "world"}
 			}
+			if cfg.unspecified && r.Intn(25) == 0 {
+				// texts that are not account names: the empty text, the marker used for kept funds
+				val = J{"t": "err", "e": "InvalidAccountName", "v": pick(r, []string{"", "<kept>", "a b"})}
+			}
 		case "asset":
 			val = J{"t": "asset", "v": pick(r, cfg.assets)}
 		case "number":
@@ -376,7 +388,7 @@ func (g *gen) declareVars(c *Case) {
 			val = J{"t": "str", "v": pick(r, []string{"k", "s1", "s2"})}
 		}
 		origin := J{"k": "none"}
-		usable := true
+		usable := val["t"] != "err"
 		switch {
 		case cfg.origins && t == "monetary" && r.Intn(3) == 0:
 			acc := g.expr("account", "", 0)
@@ -541,7 +553,7 @@ func corpusCfg(name string) genCfg {
 		base.maxVars, base.maxStmts = 3, 4
 		base.wSend, base.wSave, base.wTx, base.wAm = 6, 2, 1, 1
 		base.sendAllRate = 4
-		base.dsts = []string{"x", "y", "a", "b"}
+		base.dsts = []string{"x", "y", "a", "b", "world"}
 		base.portionVars = true
 	case "save": // C08: saves among probing sends
 		base.maxVars, base.maxStmts = 2, 5
